@@ -197,6 +197,17 @@ def from_array(
 
     normalize_chunks(chunks, x.shape, dtype=x.dtype)  # validates
 
+    if _chunks_depend_on_config(chunks):
+        # "auto" is resolved against ``array.chunk-size`` (and the source's own
+        # chunks).  The name is a token of the operands, so an operand that
+        # still said "auto" gave one name to whatever layout the configuration
+        # in effect at first use produced: resolve it now, as ``rechunk`` and
+        # the creation routines do.
+        previous_chunks = getattr(x, "chunks", None)
+        if getattr(x, "shards", None) is not None and chunks == "auto":
+            previous_chunks = x.shards
+        chunks = normalize_chunks(chunks, x.shape, dtype=x.dtype, previous_chunks=previous_chunks)
+
     # Determine name for the expression. User-provided string names match
     # dask.array.from_array and are used exactly.
     determ_token = None
@@ -234,6 +245,17 @@ def from_array(
             _determ_token=determ_token,
         )
     )
+
+
+def _chunks_depend_on_config(chunks):
+    """Whether a chunk specification contains ``"auto"`` (resolved against configuration)."""
+    if isinstance(chunks, str):
+        return chunks == "auto"
+    if isinstance(chunks, dict):
+        return any(_chunks_depend_on_config(c) for c in chunks.values())
+    if isinstance(chunks, (tuple, list)):
+        return any(isinstance(c, str) and c == "auto" for c in chunks)
+    return False
 
 
 def asarray(a, allow_unknown_chunksizes=False, dtype=None, order=None, *, like=None, **kwargs):
